@@ -176,6 +176,40 @@ class Ctx:
         self.decl[name] = SymInt(v)
         return SymEnum(v, options)
 
+    def datetime(self, name, year_lo=1900, year_hi=2200, tz=None):
+        if self.mode == 'conc':
+            return self._get(name)
+        from .models import dt
+        r = dt.sym_datetime(name, year_lo, year_hi, tz)
+        self.decl[name] = r
+        return r
+
+    def time(self, name, tz=None):
+        if self.mode == 'conc':
+            return self._get(name)
+        from .models import dt
+        r = dt.sym_time(name, tz)
+        self.decl[name] = r
+        return r
+
+    def tz(self, name, lo=-720, hi=840, tzname=None):
+        """fixed-offset tzinfo with a symbolic whole-minute offset; tzname: None | str | symbolic str"""
+        from .models import dt
+        if self.mode == 'conc':
+            return dt.FixedTz(self._get(name), tzname)
+        r = dt.sym_tz(name, lo, hi, tzname)
+        self.decl[name] = SymInt(r.off_min)
+        return r
+
+    def decimal(self, name, max_coef, exp):
+        """finite Decimal with symbolic sign and coefficient 0..max_coef and the given (concrete) exponent"""
+        if self.mode == 'conc':
+            return self._get(name)
+        from .models import dec
+        r = dec.sym_decimal(name, max_coef, exp)
+        self.decl[name] = r
+        return r
+
     def given(self, name, value):
         """record a symbolic value built by the harness itself (e.g. by a model constructor) as a named input"""
         if self.mode == 'conc':
@@ -272,6 +306,20 @@ class Ctx:
             return SymBool(z3.Or(*[rt.bterm(c) for c in conds if c is not False]))
         return any(conds)
 
+    def floormod(self, x, b):
+        """x mod b for a positive constant b; an If-chain over the few possible quotients when bounds are known"""
+        if not isinstance(x, Sym):
+            return x % b
+        t = rt.iterm(x)
+        bd = self.eng.bounds(t)
+        if bd is not None and (bd[1] // b) - (bd[0] // b) <= 6:
+            qlo, qhi = bd[0] // b, bd[1] // b
+            r = t - qhi * b
+            for q in range(qhi - 1, qlo - 1, -1):
+                r = z3.If(t < (q + 1) * b, t - q * b, r)
+            return SymInt(r)
+        return SymInt(t % b)
+
     def implies(self, a, b):
         if isinstance(a, SymBool) or isinstance(b, SymBool):
             return SymBool(z3.Implies(rt.bterm(a), rt.bterm(b)))
@@ -361,19 +409,57 @@ def model_inputs(decl, model):
 
 
 def enc_inputs(inputs):
+    import datetime as _d
+
     def e(v):
         if isinstance(v, bytes):
             return {"__bytes__": list(v)}
+        if isinstance(v, _d.datetime):
+            return {"__datetime__": [v.year, v.month, v.day, v.hour, v.minute, v.second, v.microsecond], "tz": _enc_tz(v.tzinfo)}
+        if isinstance(v, _d.time):
+            return {"__time__": [v.hour, v.minute, v.second, v.microsecond], "tz": _enc_tz(v.tzinfo)}
+        import decimal as _dec
+        if isinstance(v, _dec.Decimal):
+            t = v.as_tuple()
+            return {"__decimal__": [t.sign, list(t.digits), t.exponent]}
         if isinstance(v, (bool, int, str)) or v is None:
             return v
         return plain(v)
     return {k: e(v) for k, v in inputs.items()}
 
 
+def _enc_tz(tz):
+    if tz is None:
+        return None
+    import datetime as _d
+    off = tz.utcoffset(None)
+    return {"off_min": off // _d.timedelta(minutes=1), "name": tz.tzname(None), "utc": type(tz).__name__ == "_UTC"}
+
+
+def _dec_tz(d):
+    if d is None:
+        return None
+    if d.get("utc"):
+        from ofxtools.utils import UTC
+        return UTC
+    from .models.dt import FixedTz
+    return FixedTz(d["off_min"], d["name"])
+
+
 def dec_inputs(d):
+    import datetime as _d
+
     def de(v):
         if isinstance(v, dict) and "__bytes__" in v:
             return bytes(v["__bytes__"])
+        if isinstance(v, dict) and "__datetime__" in v:
+            return _d.datetime(*v["__datetime__"], tzinfo=_dec_tz(v["tz"]))
+        if isinstance(v, dict) and "__time__" in v:
+            return _d.time(*v["__time__"], tzinfo=_dec_tz(v["tz"]))
+        if isinstance(v, dict) and "__decimal__" in v:
+            import decimal as _dec
+            sg, dg, ex = v["__decimal__"]
+            return _dec.Decimal((sg, tuple(dg), ex))
         return v
     return {k: de(v) for k, v in d.items()}
 
